@@ -362,11 +362,15 @@ class ExprMixin:
                 return False
             raise EngineError('== None on ' + type(other).__name__)
         if isinstance(a, FStr) or isinstance(b, FStr):
+            # A-FMT side condition: the ints formatted BY THE CODE are non-negative (then component-wise equality is
+            # string equality, whatever the expected value on the contract side contains); asked on the path of the
+            # comparison, once per formatted term and path condition
             for x in (a, b):
-                if isinstance(x, FStr):
+                if isinstance(x, FStr) and not getattr(x, 'spec', False):
                     for part in x.parts:
-                        if is_sym(part) and z3.is_int(part) and part.sexpr() not in self._fmt_checked:
-                            self._fmt_checked.add(part.sexpr())
+                        key = (part.sexpr(), len(st.pc)) if is_sym(part) and z3.is_int(part) else None
+                        if key is not None and key not in self._fmt_checked:
+                            self._fmt_checked.add(key)
                             self.oblige(st, 'safety.fmt_nonneg', part >= 0, kind='safety')
             return self.fstr_eq(a, b)
         if is_sym(a) and z3.is_string(a) and isinstance(b, str):
